@@ -446,6 +446,11 @@ func (w *c01World) opDeliverSplit(i int, unsub int) {
 	if i >= len(w.fl) || w.blocked != nil || w.locked {
 		return
 	}
+	if w.fl[i].kind == 0 && w.fl[i].pub.Offset > 0 && !w.sc.Pos {
+		// non-positioned path: DisabledPushFlags is called under c.mu, i.e. inside the check
+		w.opDeliver(i, false)
+		return
+	}
 	tk := w.removeTok(i)
 	w.emitL(fmt.Sprintf("(LDeliver %d%%nat false)", i))
 	done := make(chan struct{})
@@ -465,7 +470,9 @@ func (w *c01World) opDeliverSplit(i int, unsub int) {
 		w.fail("split delivery stuck")
 		return
 	}
-	w.emit("HPre")
+	if tk.kind == 0 {
+		w.emit("HPre") // publications: parked after CheckPosition (offset-less ones have no check)
+	} // joins / leaves: parked before their flag check
 	var udone chan struct{}
 	if unsub != 0 && !w.tr.isClosed() {
 		udone = make(chan struct{})
